@@ -1458,6 +1458,9 @@ def default_external(I, state, frame, bi, t, args, span, name):
             if a[1][0] == "job" or a[1] == ("self",):
                 I.havoc_jobs(st)
                 wrote = True
+                if a[1] == ("self",) and a[2]:
+                    I.rec.put("store_self", I.sitekey(frame, bi, -1),
+                              dict(fn=frame.body.name, bb=bi, span=span, proj=a[2], value=TOP, old=None, stack=frame.stack, call="unmodelled " + name))
             elif a[1][0] == "local":
                 cur = I.load_root(st, a[1])
                 I.store_root(st, a[1], av_set(cur, a[2], TOP, I.uni) if a[2] else TOP)
